@@ -24,15 +24,8 @@ import (
 func sp(s string) *string { return &s }
 
 // the same strings as Proofs/Access_proofs.v [lookalikes]
-var lookalikes = []string{"relay:admin ", " relay:admin", "Relay:Admin", "RELAY:ADMIN", "relay:Admin", "admin", "relay", "relay:", "relay:admi",
-	"relay:admins", "relay:admin:", "relay-admin", "relay.admin", "relay:admin,relay:stats", "relay:admin relay:stats",
-	"relay:stats", "read", "write", "host", "client", "", "*", "relay:*",
-	// Unicode compatibility look-alikes (equal to the keyword only after NFKC / case folding): full-width letters,
-	// full-width and small colon, modifier / superscript / mathematical letters, long s, Kelvin-style homoglyphs
-	"\uff52\uff45\uff4c\uff41\uff59\uff1a\uff41\uff44\uff4d\uff49\uff4e", "relay\uff1aadmin", "relay\ufe55admin", "\u02b3elay:admin",
-	"relay:admi\u207f", "relay:\U0001d41admin", "relay:\uff41dmin", "relay:adm\u2139n", "\uff52elay:admin",
-	"relay\uff1astats", "relay:\u017ftats", "relay:stat\u02e2", "\uff52\uff45\uff4c\uff41\uff59\uff1a\uff53\uff54\uff41\uff54\uff53", "relay:\uff53tats",
-	"relay:admin\u200b", "\ufeffrelay:admin", "relay:admin\u00a0", "re\u00adlay:admin"}
+// the scope vocabulary (shared with the other access checks)
+var lookalikes = acc.ScopeLookalikes
 
 type scopeSet struct {
 	class  string
@@ -386,6 +379,32 @@ func work(a lib.Args) {
 		n++
 	}
 
+	genShaped := func(r *lib.Rng, rt string, cs acc.ClaimShape, w acc.Window) {
+		e := mocks[r.Bool()]
+		now := int64(1600000000 + r.Intn(200000000))
+		name := "c09-" + strconv.Itoa(n)
+		adm := acc.ScopeBearer(e.Cfg.Host, now, []string{"relay:admin"})
+		scope := "relay:admin"
+		if rt == "status" {
+			scope = "relay:stats"
+		}
+		auth := acc.Shaped(acc.ScopeBearer(e.Cfg.Host, now, []string{scope}), cs, w, now)
+		bkD, bkA := "den-"+name, "alw-"+name
+		target := bkA
+		if rt == "allow" {
+			target = bkD
+		}
+		x := mkReq(rt, auth, target, now+300)
+		ld := mkReq("listdeny", adm, "", 0)
+		la := mkReq("listallow", adm, "", 0)
+		d0 := mkReq("deny", adm, bkD, now+1000)
+		a0 := mkReq("allow", adm, bkA, now+1000)
+		ops := []acc.Op{{K: "req", Req: &d0}, {K: "req", Req: &a0}, {K: "req", Req: &ld}, {K: "req", Req: &la}, {K: "req", Req: &x}, {K: "req", Req: &ld}, {K: "req", Req: &la}}
+		cases = append(cases, acc.Case{Name: name, T0: now, Ops: ops, Cfg: e.Cfg, Mode: "mock"})
+		metas = append(metas, meta{kind: "lists", x: 4, class: "exact-scope", before: []int{2, 3}, after: []int{5, 6}})
+		n++
+	}
+
 	genLine := func(r *lib.Rng, ln acc.RequestLine, k int) {
 		e := mocks[r.Bool()]
 		now := int64(1600000000 + r.Intn(200000000))
@@ -592,13 +611,25 @@ func work(a lib.Args) {
 				}
 			}
 		}
+		// which private claims the token names (neither, prefix only - what `relay token` writes for admin tokens -, topic
+		// only, both, empty strings, another prefix) x where the clock stands in its window, with the exact scope, on every
+		// admin / status endpoint (rotating)
+		{
+			k := 0
+			for _, cs := range acc.ClaimShapes() {
+				for _, w := range acc.Windows() {
+					genShaped(rng.Fork(), endpoints[k%len(endpoints)], cs, w)
+					k++
+				}
+			}
+		}
 		// the request-line dimension (the Coq router decides what each line is): a third of the corner lines, with the
 		// exact scope of the endpoint the line aims at (if any), a session token, look-alike scopes or no token
 		for i, ln := range acc.LineCorners() {
-			if i%3 != 0 {
+			if i%4 != 0 {
 				continue
 			}
-			genLine(rng.Fork(), ln, i/3)
+			genLine(rng.Fork(), ln, i/4)
 		}
 		// every look-alike spelling (ASCII and Unicode) on a list endpoint and on /status, with an otherwise good token
 		for _, la := range lookalikes {
